@@ -98,6 +98,9 @@ def check_min_size_value(ctx, pkg, name):
             continue
         for q in rets:
             v = q.value
+            if not (isinstance(v, Num) and v.nf is not None):
+                ctx.undecided(rule, f"{name}|min-size-value|{label[:3]}", loc, "min_size has no normal form (a call without a model): not decided", found=repr(v)[:100])
+                continue
             ok = isinstance(v, Num) and v.nf is not None and nf_equal(v.nf, want)
             ctx.check(ok, rule, f"{name}|min-size-value|{label[:3]}", loc, f"fitted on {label} the minimum spacing is {want!r}", found=repr(v), expected=repr(want))
 
@@ -380,6 +383,16 @@ def check_scorer(ctx, pkg, name, width, inner, mode):
             kc = ke_[0].data.get("cuts") if ke_ else None
             ok_k = signed_guard or (isinstance(kc, Num) and kc.meta.get("signed") is True)
             ctx.check(ok_k, "C13.c CHECK-COMPLETE", f"{name}|{mode}|kernel-dtype-signed", ke_[0].loc() if ke_ else loc, "the cuts handed to the kernel are of a signed integer type (cast after validation, or a signed-integer dtype test): unsigned cuts cannot wrap around in the kernel's arithmetic", found=("signed" if ok_k else "the validated cuts are handed on in their own dtype (may be unsigned)"), expected="self._evaluate(cuts.astype(np.int64, copy=False)) or np.issubdtype(cuts.dtype, np.signedinteger)")
+        # ... on EVERY path to the kernel, and in 64 bits: the kernels multiply lengths (n * before_n, n * p); valid cuts
+        # given as int8 / int16 / int32 overflow there if they are handed on in their own dtype
+        narrow = []
+        for p in reach:
+            ke2 = [e for e in p.events if e.kind == "kernel_enter"]
+            kc2 = ke2[0].data.get("cuts") if ke2 else None
+            if not (isinstance(kc2, Num) and kc2.meta.get("signed") is True and kc2.meta.get("wide") is True):
+                narrow.append((p, ke2))
+        if reach:
+            ctx.check(not narrow, "C13.c CHECK-COMPLETE", f"{name}|{mode}|kernel-dtype-int64", (narrow[0][1][0].loc() if narrow and narrow[0][1] else loc), "on every path the cuts are handed to the kernel as 64-bit signed integers (an unconditional cast after validation): products of lengths of narrow integer cuts (int8, int16) cannot overflow in the kernels", found=(f"{len(narrow)} of {len(reach)} paths hand the cuts on in their own dtype" if narrow else "int64 on every path"), expected="self._evaluate(cuts.astype(np.int64, copy=False))")
         for l, e in early.items():
             ctx.violation("C13.c CHECK-COMPLETE", f"{name}|{mode}|cast-before-dtype-check", l, "the cuts are converted to an integer (or caller-independent) dtype before their own dtype has been tested: fractional cuts are truncated and scored silently", found=f"{e.data['how']} to {e.data['dtype'] or 'a computed dtype'}: {norm_src(e.node)[:80]}", expected="np.issubdtype(cuts.dtype, np.integer) established first")
         firedw = [p for p in paths if p.outcome == "raise" and any(wd(c) for c, v in both_polarities(p.facts)) and p.exc.func is not None and "check_cuts" in p.exc.func.name]
